@@ -912,3 +912,32 @@ package mcp
 //@ func StdioClient.ReadResource
 //@   ensures[C14,C01,C02 the-decoders-outcome-is-returned-unchanged] parses == old(parses) + 1 ==> asany(ret) == lastparsed && ret1 == lastparsederr
 //@   ensures[C14,C01 at-most-one-decoding] parses <= old(parses) + 1
+
+// ---------------------------------------------------------------------------
+// C08 — every response obtained from the request handler has its body closed on every path
+// (or is handed to a callee whose contract closes it); a call that reports no error returns a result.
+
+//@ func streamableHTTPClientTransport.send
+//@   ensures[C08 response-body-closed-on-every-path] handles == old(handles) + 1 && lastresp != nil && isnil(lasthandleerr) ==> bodyclosed(lastresp.Body)
+//@ func streamableHTTPClientTransport.sendNotification
+//@   ensures[C08 response-body-closed-on-every-path] handles == old(handles) + 1 && lastresp != nil && isnil(lasthandleerr) ==> bodyclosed(lastresp.Body)
+//@ func streamableHTTPClientTransport.connectGetSSE
+//@   ensures[C08 response-body-closed-on-every-path] handles == old(handles) + 1 && lastresp != nil && isnil(lasthandleerr) ==> bodyclosed(lastresp.Body)
+//@ func streamableHTTPClientTransport.sendResponseToServer
+//@   ensures[C08 response-body-closed-on-every-path] handles == old(handles) + 1 && lastresp != nil && isnil(lasthandleerr) ==> bodyclosed(lastresp.Body)
+//@ func streamableHTTPClientTransport.terminateSession
+//@   ensures[C08 response-body-closed-on-every-path] handles == old(handles) + 1 && lastresp != nil && isnil(lasthandleerr) ==> bodyclosed(lastresp.Body)
+//@ func sseClientTransport.sendRequestInternal
+//@   ensures[C08 response-body-closed-on-every-path] handles == old(handles) + 1 && lastresp != nil && isnil(lasthandleerr) ==> bodyclosed(lastresp.Body)
+//@ func sseClientTransport.sendNotification
+//@   ensures[C08 response-body-closed-on-every-path] handles == old(handles) + 1 && lastresp != nil && isnil(lasthandleerr) ==> bodyclosed(lastresp.Body)
+//@ func sseClientTransport.sendResponseMessage
+//@   ensures[C08 response-body-closed-on-every-path] handles == old(handles) + 1 && lastresp != nil && isnil(lasthandleerr) ==> bodyclosed(lastresp.Body)
+//@ func streamableHTTPClientTransport.handleSSEResponse
+//@   ensures[C08 takes-ownership-of-the-response-and-closes-its-body] bodyclosed(httpResp.Body)
+//@   ensures[C08 no-error-means-a-result] ret1 == nil ==> ret != nil
+//@   loop 3 invariant[C08] resultReceived ==> rawResult != nil
+//@ func streamableHTTPClientTransport.send
+//@   ensures[C08 no-error-means-a-result] ret1 == nil ==> ret != nil
+//@ func sseClientTransport.sendRequestInternal
+//@   ensures[C08 no-error-means-a-result] ret1 == nil ==> ret != nil
